@@ -1237,7 +1237,7 @@ def _ov_matmul(v, T="int"):
 
 
 vop("matmul", ["nmtools/array/view/matmul.hpp"], [ARR("a"), ARR("b")], "view::matmul({a},{b})",
-    [(2, 2), (3, 2), (2, 3), (2, 1)], _gv_matmul, _ov_matmul, weight=2)
+    [(2, 2), (3, 2), (2, 3), (2, 1)], _gv_matmul, _ov_matmul, weight=3)
 
 def _gv_slice(rng, dims, primary=None):
     n, = dims
@@ -1752,7 +1752,9 @@ def make_group(gid, o, rng, supported_cfgs, nbaked, max_cfgs, pinned=(), dims=No
         return Group(gid, o, dims, baked, sig, cfgs)
     if o.family == "view":
         base = [c for c in view_base_cfgs(o) if c in cfgs]
-        extra = [c for c in cfgs if c not in base]
+        if o.weight > 1:
+            base = base[::o.weight]     # expensive operation: every weight-th array kind (deterministic)
+        extra = [c for c in cfgs if c not in base and o.weight == 1]
         rng.shuffle(extra)
         chosen = base + extra[:max(0, max_cfgs - len(base))]
         return Group(gid, o, dims, baked, sig, chosen)
